@@ -203,8 +203,9 @@ class Composite(LexicalParent[Node], HasCreator, Node, ABC):
     def _internal_cache_key(self):
         """
         What, beyond the composite's own input values, the outputs depend on: which
-        children there are, how they are wired, and the values of child inputs that are
-        not fed by a connection (recursively for composite children).
+        children there are (label and class), how they are wired, and the values of
+        child inputs that are not fed by a connection (recursively for composite
+        children). Classes go in by name, so that the key survives storage.
         """
         return (
             self.child_labels,
@@ -214,6 +215,7 @@ class Composite(LexicalParent[Node], HasCreator, Node, ABC):
             tuple(
                 (
                     child.label,
+                    f"{type(child).__module__}.{type(child).__qualname__}",
                     tuple(
                         (label, channel.value)
                         for label, channel in child.inputs.items()
